@@ -1244,6 +1244,20 @@ def rule_hd_emit(cx, rep, port):
         tests = [n for n in g.nodes if n.kind == 'test' and hdr in names_in(n.ast)]
         dn = [n for n in g.nodes if cfgmod.node_contains(n, lambda x: x is direct[0])]
         skip = g.exists_path(g.entry, lambda n: n is g.exit, avoid=lambda n: any(n is d for d in dn), edge_ok=lambda a, b, lab: not (any(a is t for t in tests) and lab == 'F') and lab not in ('exc', 'raise'))
+        # decided on path summaries when possible: every path that a present header can take hands the header to write()
+        from .. import pathsem
+        ps_ = pathsem.paths(sh)
+        if ps_ is not None:
+            def leaf_(e):
+                if isinstance(e, ast.Compare) and len(e.ops) == 1 and is_name(e.left, hdr) and is_none(e.comparators[0]) and isinstance(e.ops[0], (ast.Is, ast.Eq)):
+                    return False
+                return None
+            skip = False
+            for q_ in ps_:
+                if q_.kind == 'raise' or not pathsem.consistent(q_, leaf_):
+                    continue
+                if not any(isinstance(c_, ast.Call) and call_name(c_) == 'self.write' and c_.args and hdr in names_in(c_.args[0]) for x_ in q_.calls for c_ in ast.walk(x_)):
+                    skip = True
         rep.decide(not skip, 'header emission', direct[0], 'set_header() writes a copy of the header at once whenever there is one', 'set_header() can return without writing a header that is present')
         return
     pend = [a for a in walk_no_nested(sh) if isinstance(a, ast.Assign) and (dotted(a.targets[0]) or '').startswith('self.') and hdr in names_in(a.value) and not (isinstance(a.value, ast.Call) and dotted(a.value.func) == 'len')]
